@@ -134,6 +134,67 @@ pub trait Prop {
     fn mem_cap(&self) -> u64 {
         0
     }
+    /// number of automatically derived histories `A ;; B` (both orders) appended to the generated cases: pairs of
+    /// generated lines that differ in exactly one token, executed back to back in one process, so that state
+    /// surviving between calls (a cache keyed by too few parameters, a static, a thread-local) shows as a
+    /// difference from the model, which evaluates every op on its own; 0 switches them off
+    fn auto_histories(&self, tier: Tier) -> usize {
+        if tier == Tier::Quick {
+            300
+        } else {
+            3000
+        }
+    }
+}
+
+/// see `Prop::auto_histories`
+fn add_auto_histories(prop: &dyn Prop, rng: &mut Rng, tier: Tier, lines: &mut Vec<String>) {
+    let want = prop.auto_histories(tier);
+    if want == 0 {
+        return;
+    }
+    let mut buckets: std::collections::HashMap<u64, Vec<u32>> = std::collections::HashMap::new();
+    let step = (lines.len() / 150_000).max(1);
+    for i in (0..lines.len()).step_by(step) {
+        let l = &lines[i];
+        if l.len() > 1500 || l.contains(" ;; ") {
+            continue;
+        }
+        let toks: Vec<&str> = l.split(' ').collect();
+        if toks.len() < 2 || toks.len() > 40 {
+            continue;
+        }
+        for k in 0..toks.len() {
+            let mut h: u64 = 0xcbf29ce484222325 ^ (k as u64).wrapping_mul(0x9E3779B97F4A7C15);
+            for (j, t) in toks.iter().enumerate() {
+                let t = if j == k { "\u{1}" } else { t };
+                for b in t.bytes().chain(std::iter::once(0u8)) {
+                    h = (h ^ b as u64).wrapping_mul(0x100000001b3);
+                }
+            }
+            buckets.entry(h).or_default().push(i as u32);
+        }
+    }
+    let mut keys: Vec<u64> = buckets.iter().filter(|(_, v)| v.len() >= 2).map(|(k, _)| *k).collect();
+    keys.sort_unstable();
+    if keys.is_empty() {
+        return;
+    }
+    let mut out = vec![];
+    for _ in 0..want * 6 {
+        if out.len() >= 2 * want {
+            break;
+        }
+        let v = &buckets[&keys[rng.below(keys.len() as u64) as usize]];
+        let a = v[rng.below(v.len() as u64) as usize] as usize;
+        let b = v[rng.below(v.len() as u64) as usize] as usize;
+        if lines[a] == lines[b] {
+            continue;
+        }
+        out.push(format!("{} ;; {}", lines[a], lines[b]));
+        out.push(format!("{} ;; {}", lines[b], lines[a]));
+    }
+    lines.extend(out);
 }
 
 pub fn default_n(tier: Tier, quick: usize, thorough: usize, n: usize) -> usize {
@@ -332,6 +393,10 @@ fn spawn_worker(exe: &Path, pid: &str, ops: &Path, start: usize, end: usize, fil
 /// Execute all lines of `ops` with worker processes; returns per-line (out, fails).
 pub fn supervise(prop: &dyn Prop, ops: &Path, nlines: usize, dir: &Path) -> Vec<(String, Vec<(String, String)>)> {
     let exe = std::env::current_exe().unwrap();
+    // a history of k ops gets k times the per-case time limit
+    let mults: Vec<u32> = fs::read_to_string(ops)
+        .map(|t| t.lines().map(|l| 1 + l.matches(" ;; ").count() as u32).collect())
+        .unwrap_or_default();
     let nw = prop.workers().max(1).min(nlines.max(1));
     let mut results: Vec<Option<(String, Vec<(String, String)>)>> = vec![None; nlines];
     let mut slots: Vec<Slot> = Vec::new();
@@ -421,7 +486,9 @@ pub fn supervise(prop: &dyn Prop, ops: &Path, nlines: usize, dir: &Path) -> Vec<
                 }
                 let _ = st;
                 restart_reason = Some("abort");
-            } else if s.cur.is_some() && s.cur_since.elapsed() > timeout {
+            } else if s.cur.is_some()
+                && s.cur_since.elapsed() > timeout * mults.get(s.cur.unwrap_or(0)).copied().unwrap_or(1)
+            {
                 let _ = s.child.kill();
                 let _ = s.child.wait();
                 restart_reason = Some("hang");
@@ -548,6 +615,7 @@ pub fn cmd_run(prop: &dyn Prop, args: &[String]) {
     }
     install_quiet_panic_hook();
     prop.gen(&mut rng, tier, n, &mut |l| lines.push(l));
+    add_auto_histories(prop, &mut rng, tier, &mut lines);
     finish(prop, &lines, &dir, tier_s, seed, t0);
 }
 
